@@ -285,6 +285,11 @@ def cases(tier, seed):
                         for ov in overs:
                             out.append(dict(pair="spca_nopenalty", model="SparsePCA", shape=[n, p], spec=spec, center=c, standardize=std, coslat=cl, weights=w,
                                             n_modes=k, solver=solver, oversample=ov))
+                            # the row-blocked sketch (n_blocks > 1) is the same sketch computed block by block - also when
+                            # the sample count is not a multiple of the number of blocks
+                            if solver == "randomized" and ov == min(n, p) - k and not (std or cl or w):
+                                for nb in (2, 3):
+                                    out.append(dict(out[-1], n_blocks=nb))
 
     # ---------------------------------------------------------------- F  pca_all_vs_none
     for cls in ("CPCCA", "MCA", "CCA", "RDA", "ComplexCPCCA", "ComplexMCA", "ComplexCCA", "ComplexRDA"):
@@ -841,8 +846,14 @@ def run_spca_nopenalty(case, seed, feats):
         feats["sketch"] = "one_row" if rows == 1 else ("clipped" if sketch > min(n, p) else "as_requested")
 
     def fa():
-        m = xe.single.SparsePCA(alpha=0, beta=0, oversample=case["oversample"], **kw)
-        m.fit(da, dim="time", weights=wda)
+        m = xe.single.SparsePCA(alpha=0, beta=0, oversample=case["oversample"], n_blocks=case.get("n_blocks", 1), **kw)
+        try:
+            m.fit(da, dim="time", weights=wda)
+        except ValueError as e:
+            # blocks shorter than the sketch width cannot be stacked into equal parts: the blocked algorithm says so
+            if case.get("n_blocks", 1) > 1 and "equal division" in str(e):
+                return "refused"
+            raise
         return single_obs(m, ref, k, spca=True)
 
     def fb():
@@ -854,6 +865,8 @@ def run_spca_nopenalty(case, seed, feats):
     a, b, errs = _two("SparsePCA", fa, fb, **feats)
     if errs:
         return dict(violations=errs, outcome="violation")
+    if isinstance(a, str):
+        return dict(outcome="refused:blocks_shorter_than_sketch", nontrivial=False)
     tol = TOL_DIFF
     ok = C.direct("explained_variance", a["explained_variance"], b["explained_variance"], tol)
     if ok:  # the ratio is explained_variance / total_variance: once the numerator is wrong the ratio adds no information
